@@ -209,6 +209,7 @@ def installed(streams, clock=None, sandbox=None, capture=None, sync_threads=True
     fresh_loader_state()
     fresh_validation_state()
     fresh_class_state()
+    fresh_function_defaults()
     if sync_threads:
         from .threads import SyncThreading
         sync = SyncThreading()
@@ -313,6 +314,36 @@ def fresh_class_state():
                     if isinstance(val, (dict, set, list)) and not name.startswith("__") and \
                             (cls, name) not in _CLASS_IMPORT_STATE:
                         _CLASS_IMPORT_STATE[(cls, name)] = _copy_container(val)
+
+
+_FUNC_DEFAULTS = {}
+
+
+def fresh_function_defaults():
+    """Mutable default arguments of the package's functions (a shared `arg={}`) are process state
+    as well: they start every run with the content they had when the harness first saw them."""
+    import inspect
+    import sys as _sys
+    first = not _FUNC_DEFAULTS
+    for modname, mod in list(_sys.modules.items()):
+        if mod is None or not (modname == "odml" or modname.startswith("odml.")):
+            continue
+        funcs = []
+        for obj in list(vars(mod).values()):
+            if inspect.isfunction(obj) and str(obj.__module__).startswith("odml"):
+                funcs.append(obj)
+            elif inspect.isclass(obj) and str(getattr(obj, "__module__", "")).startswith("odml"):
+                for member in list(vars(obj).values()):
+                    member = getattr(member, "__func__", member)
+                    if inspect.isfunction(member):
+                        funcs.append(member)
+        for fn in funcs:
+            for k, val in enumerate(fn.__defaults__ or ()):
+                if isinstance(val, (dict, set, list)):
+                    key = (fn, k)
+                    if key not in _FUNC_DEFAULTS:
+                        _FUNC_DEFAULTS[key] = _copy_container(val) if first else type(val)()
+                    _restore_container(val, _FUNC_DEFAULTS[key])
 
 
 def fresh_validation_state():
